@@ -1,7 +1,7 @@
 #!/bin/sh
 # usage: tools/confirm_seed.sh <seed-dir-name>   (e.g. C01)  -- confirms a seeded change in a scratch worktree
 ID="$1"
-SD=/verif/seeded/$ID
+SD=/verif/${SEEDDIR:-seeded}/$ID
 WT=/tmp/confirm/$ID
 mkdir -p /tmp/confirm
 git -C /repo worktree remove --force $WT 2>/dev/null
